@@ -141,10 +141,10 @@ fn world_system(id: usize) -> SystemCommandCallback
     let cap = Arc::new(AtomicU32::new(0));
     let canary = Canary(id);
     SystemCommandCallback::new(
-        move |mut readers: Readers, mut acc: Access, mut c: Commands, mut local: Local<u32>| -> Result<(), IgnoredError>
+        move |mut readers: Readers, mut acc: Access, mut ew: EwAccess, mut c: Commands, mut local: Local<u32>| -> Result<(), IgnoredError>
         {
             let _ = &canary;
-            body(id, &cap, &mut *local, &mut readers, Some(&mut acc), None, &mut c, None)
+            body(id, &cap, &mut *local, &mut readers, Some(&mut acc), Some(&mut ew), &mut c, None)
         }
     )
 }
